@@ -138,6 +138,10 @@ Ambiguous(f, p, m8) ==
           /\ f[j].parent # "NONE" /\ Contains(f[j], p, 0)
           /\ (p.x = East(f[j]) \/ p.y = f[j].n)
           /\ ~SameVal(AtSub(f, j, p, 0), AtSub(f, IndexOf(f, f[j].parent), p, 0))
+    \* (d) the northern / eastern border of a root, when another root is within reach
+    \/ \E j \in Roots(f) :
+          /\ Contains(f[j], p, 0) /\ (p.x = East(f[j]) \/ p.y = f[j].n)
+          /\ \E k \in Roots(f) \ {j} : Contains(f[k], p, m8)
 
 \* ---- several grids: first hit, then first within the margin, then null ----
 \* An entry of a `grids=` list: [k, fi, opt, present]: k = "grid" names file
@@ -188,9 +192,22 @@ Conv(kind, fmt) ==
       [] kind = "datum" /\ fmt = "ntv2"
                               -> [unit |-> "arcsec", per |-> "",   el |-> << <<2, -1>>, <<1, 1>>, <<0, 0>> >>]
       [] kind = "deformation" -> [unit |-> "mm",     per |-> "yr", el |-> << <<2, -1>>, <<1, -1>>, <<3, -1>> >>]
+\* What the decoded grid delivers (Grid::at): element e = sign * band, in internal units
+Dec(kind, fmt) ==
+    CASE kind \in {"geoid", "projected"}     -> << <<1, 1>> >>
+      [] kind = "datum" /\ fmt = "gravsoft" -> << <<2, 1>>, <<1, 1>> >>
+      [] kind = "datum" /\ fmt = "ntv2"     -> << <<2, -1>>, <<1, 1>> >>
+      [] kind = "deformation"               -> << <<2, 1>>, <<1, 1>>, <<3, 1>> >>
+\* the operator applies the decoded value with this sign in the forward direction
+OpSign(kind) == IF kind = "datum" THEN 1 ELSE -1
 \* unit -> factor to the internal unit, as <<numerator, denominator, uses pi/180>>
 UnitFactor(u) == CASE u = "m" -> <<1, 1, FALSE>> [] u = "arcsec" -> <<1, 3600, TRUE>> [] u = "mm" -> <<1, 1000, FALSE>>
 BandsOf(kind) == CASE kind \in {"geoid", "projected"} -> 1 [] kind = "datum" -> 2 [] kind = "deformation" -> 3
+
+\* deformation: the duration the velocity is integrated over is `dt` when given, else the
+\* observation epoch of the coordinate minus the frame epoch `t_epoch` (T1 - T0 in eq. 1-3
+\* of the operator's documentation: X' = X - (T1 - T0) V in the forward direction)
+Duration(dtGiven, dt, tEpoch, tObs) == IF dtGiven THEN dt ELSE tObs - tEpoch
 
 \* numerators (over val.den) added to elements 1..3 of a tuple
 Delta(kind, fmt, val, dir) ==
